@@ -38,6 +38,30 @@ GLOBAL_RW = [
 ]
 
 
+def strip_log_macros(text):
+    """remove `log::<level>!( ... );` statements (any nesting), using the masked text for paren matching"""
+    masked = rsx.mask(text)
+    out = []
+    pos = 0
+    for m in re.finditer(r"\blog::(?:trace|debug|info|warn|error)!\s*\(", masked):
+        if m.start() < pos:
+            continue
+        try:
+            c = rsx.match_brace(masked, m.end() - 1, "(", ")")
+        except ExtractError:
+            continue
+        e = c + 1
+        k = e
+        while k < len(masked) and masked[k] in " \t":
+            k += 1
+        if k < len(masked) and masked[k] == ";":
+            e = k + 1
+        out.append(text[pos:m.start()])
+        pos = e
+    out.append(text[pos:])
+    return "".join(out)
+
+
 def parse_kv(s):
     lex = shlex.shlex(s, posix=True)
     lex.whitespace_split = True
@@ -190,7 +214,7 @@ class Gen:
                     text = isrc[lo + 1:hi]
                     for a, b in sorted(cuts, reverse=True):
                         text = text[:a - lo - 1] + text[b - lo - 1:]
-                    text = apply_rw(text, GLOBAL_RW, kv["file"] + " " + kv["impl"])
+                    text = strip_log_macros(text)
                     text = apply_rw(text, rules, kv["file"] + " " + kv["impl"])
                     self.items.append({"name": re.sub(r"[^A-Za-z0-9_]", "", kv["impl"].replace("impl", "")) + ".*", "kind": "impl", "file": kv["file"],
                                        "line": rsx.line_of(isrc, lo), "impl": kv["impl"], "src_name": "(all methods" + (" except " + ",".join(drop) if drop else "") + ")",
@@ -376,7 +400,7 @@ class Gen:
                     raise ExtractError("%s: loop #%d not found (%d loops)" % (where, k, len(offs)))
                 o = offs[k]
                 body = body[:o] + "\n" + "\n".join(sec["loops"][k]) + "\n" + body[o:]
-        body = apply_rw(body, GLOBAL_RW, where)
+        body = strip_log_macros(body)
         body = apply_rw(body, sec["rw"], where)
         self.items.append({"name": name, "kind": head, "file": kv["file"], "line": line,
                            "impl": kv.get("impl", ""), "src_name": kv["name"]})
